@@ -31,7 +31,11 @@ CONSTANTS Windows,      \* candidate values of the window the receiver advertise
           MaxCalls,     \* Write calls per stream
           MaxRead,      \* largest single Read
           Greedy,       \* BOOLEAN
-          RecvPolicy    \* "impl" | "any"
+          RecvPolicy,   \* "impl" | "any"
+          CreditFirst   \* BOOLEAN: TRUE = adjustWindow adds the credit to myWindow in its critical section, BEFORE the
+                        \*   window adjust is written (the code); FALSE = myWindow is credited in a second critical
+                        \*   section after the write returned (a design NoError / SenderWithinWindow must reject: the
+                        \*   peer may react to the adjust before the local goroutine continues)
 
 Strm == 0 .. 2
 RdStrm == {0, 1}                     \* streams the receiving application can read
@@ -168,7 +172,7 @@ AdjustCS(p) ==                         \* adjustWindow's critical section (polic
   /\ RecvPolicy = "impl" /\ apc[p] = "adj"
   /\ LET c == myCons + aamt[p] IN
        IF Threshold(myWin)
-         THEN /\ myCons' = 0 /\ myWin' = myWin + c
+         THEN /\ myCons' = 0 /\ myWin' = IF CreditFirst THEN myWin + c ELSE myWin
               /\ apc' = [apc EXCEPT ![p] = "snd"] /\ aamt' = [aamt EXCEPT ![p] = c]
          ELSE /\ myCons' = c /\ myWin' = myWin
               /\ apc' = [apc EXCEPT ![p] = "idle"] /\ aamt' = [aamt EXCEPT ![p] = 0]
@@ -176,9 +180,16 @@ AdjustCS(p) ==                         \* adjustWindow's critical section (polic
 
 SendAdjust(p) ==                       \* sendMessage(windowAdjustMsg)
   /\ RecvPolicy = "impl" /\ apc[p] = "snd"
-  /\ netB' = Append(netB, aamt[p])
-  /\ apc' = [apc EXCEPT ![p] = "idle"] /\ aamt' = [aamt EXCEPT ![p] = 0]
+  /\ netB' = Append(netB, aamt[p])                  \* from here on the peer can see (and use) the credit
+  /\ IF CreditFirst THEN apc' = [apc EXCEPT ![p] = "idle"] /\ aamt' = [aamt EXCEPT ![p] = 0]
+                    ELSE apc' = [apc EXCEPT ![p] = "crd"] /\ UNCHANGED aamt
   /\ UNCHANGED <<ws, mp, wvars, netF, myWin, myCons, roff, rdoff, consumed, credited, eofRecv, err>>
+
+CreditAfter(p) ==                      \* (design variant only) the local goroutine continues after writePacket returned
+  /\ RecvPolicy = "impl" /\ ~CreditFirst /\ apc[p] = "crd"
+  /\ myWin' = myWin + aamt[p]
+  /\ apc' = [apc EXCEPT ![p] = "idle"] /\ aamt' = [aamt EXCEPT ![p] = 0]
+  /\ UNCHANGED <<ws, mp, wvars, netF, netB, myCons, roff, rdoff, consumed, credited, eofRecv, err>>
 
 CreditRoom == consumed - credited      \* (overridden in trace validation, where reads are logged late)
 
@@ -211,7 +222,7 @@ MCNext ==
   \/ (AllWritten /\ SendEOF)
   \/ RecvAdjust \/ RecvData \/ RecvEOF
   \/ \E s \in RdStrm : \E r \in 1 .. MaxRead : Read(s, r)
-  \/ \E p \in Procs : AdjustCS(p) \/ SendAdjust(p)
+  \/ \E p \in Procs : AdjustCS(p) \/ SendAdjust(p) \/ CreditAfter(p)
   \/ \E a \in 1 .. (IF CreditRoom > 0 THEN CreditRoom ELSE 0) : Credit(a)
 
 Fairness ==
@@ -219,7 +230,7 @@ Fairness ==
   /\ \A s \in Strm : WF_vars(Reserve(s)) /\ WF_vars(SendData(s))
   /\ WF_vars(RecvAdjust) /\ WF_vars(RecvData) /\ WF_vars(RecvEOF)
   /\ \A s \in RdStrm : WF_vars(\E r \in 1 .. MaxRead : Read(s, r))       \* the peer keeps reading
-  /\ \A p \in Procs : WF_vars(AdjustCS(p)) /\ WF_vars(SendAdjust(p))
+  /\ \A p \in Procs : WF_vars(AdjustCS(p)) /\ WF_vars(SendAdjust(p)) /\ WF_vars(CreditAfter(p))
 
 MCSpec == Init /\ [][MCNext]_vars
 MCLive == Init /\ [][MCNext]_vars /\ Fairness
@@ -230,7 +241,7 @@ MCLive == Init /\ [][MCNext]_vars /\ Fairness
 TypeOK ==
   /\ win \in 0 .. ws /\ myWin \in 0 .. ws /\ myCons \in 0 .. ws
   /\ \A s \in Strm : wpc[s] \in {"idle", "res", "wait", "send"} /\ whold[s] \in 0 .. mp
-  /\ \A p \in Procs : apc[p] \in {"idle", "adj", "snd"}
+  /\ \A p \in Procs : apc[p] \in {"idle", "adj", "snd", "crd"}
   /\ err \in {"none", "toobig", "window"}
 
 HeldSum == Sum3(whold)
